@@ -38,9 +38,12 @@ func (vc *VC) evalMulti(st *State, e ast.Expr) []Term {
 	case *ast.Ident:
 		return []Term{vc.evalIdent(st, x)}
 	case *ast.FuncLit:
-		r := vc.fresh("closure", vc.typeOf(x))
+		// one symbol per literal (captured variables are not part of the identity: listed limitation)
+		name := "lit$" + sanitize(vc.litKey(x))
+		vc.declare(name, "Int")
+		r := vc.mk(name, vc.typeOf(x))
 		vc.closures[r.S] = &funcVal{Lit: x}
-		st.assume("(> " + r.S + " 0)")
+		vc.addBase("(> " + name + " 0)")
 		return []Term{r}
 	case *ast.UnaryExpr:
 		switch x.Op {
